@@ -642,7 +642,7 @@ class Interp:
         if isinstance(v, dict):
             return all(self._const_leaves(k) and self._const_leaves(x) for k, x in v.items())
         return (v is None or isinstance(v, (str, int, float, bool, _re.Pattern)) or self._enum_member(v)
-                or isinstance(v, _OpRef)
+                or isinstance(v, _OpRef) or (isinstance(v, Obj) and v.name.startswith("object@"))
                 or (isinstance(v, Residual) and self.idx is not None and self.idx.has_cls(v.text)))   # a reference to a class of the package
 
     def lookup(self, key):
@@ -686,7 +686,7 @@ class Interp:
                                 v = self.eval(c.class_assigns[attr], sib)
                             except (Undecidable, Raised):
                                 break
-                            if isinstance(v, (Residual, Obj)) or not self._const_leaves(v):
+                            if isinstance(v, Residual) or not self._const_leaves(v):
                                 break
                         if isinstance(v, (list, dict, set)):
                             # a class-level container is one shared object: later reads and mutations see the same one
@@ -1194,6 +1194,14 @@ class Interp:
             ckey = f.id
             if f.id in frame and isinstance(frame[f.id], Residual):
                 ckey = frame[f.id].text
+            elif f.id not in frame and self._fi_stack and self.idx is not None:
+                # `from itertools import count` … `count()`: the call the qualified spelling makes
+                std = getattr(self.idx, "std_imports", {}).get((self._fi_stack[-1].file, f.id))
+                if std and f.id not in self.handlers:
+                    mod, _, nm = std.rpartition(".")
+                    recv = Residual(mod)
+                    meth = nm
+                    ckey = std
             if f.id in frame and isinstance(frame[f.id], _Closure):
                 return frame[f.id](*self._pos_args(e, frame))
             if f.id in frame and isinstance(frame[f.id], _OpRef):
@@ -1348,6 +1356,20 @@ class Interp:
                         return self.call_function(mf, a, recv.text)
                     finally:
                         self._stack.pop()
+        # … the same for an abstract object whose class the rule states (a member `cp0` of type CsvPath)
+        if (self.auto_private and isinstance(recv, Obj) and self.idx is not None and getattr(self.idx, "reference_methods", None) is not None
+                and len(self._stack) < 12 and self.types.get(recv.name) and self.idx.has_cls(self.types[recv.name])):
+            tcls = self.types[recv.name]
+            if self.idx.has_method(tcls, meth) and not any(f"{c.name}.{meth}" in self.idx.reference_methods for c in self.idx.mro(tcls)):
+                mf = self.idx.method(tcls, meth)
+                if not any(isinstance(n, (ast.Yield, ast.YieldFrom)) for n in ast.walk(mf.node)):
+                    a = dict(kwargs)
+                    a["__pos__"] = args
+                    self._stack.append(meth)
+                    try:
+                        return self.call_function(mf, a, recv.name)
+                    finally:
+                        self._stack.pop()
         # … or a function of a module of the analysed package called through the module's imported name (`pathu.split_mark(…)`)
         if (self.auto_private and isinstance(recv, Residual) and self._fi_stack and self.idx is not None and len(self._stack) < 12
                 and (self._fi_stack[-1].file, recv.text) in getattr(self.idx, "module_aliases", {})):
@@ -1420,6 +1442,9 @@ class Interp:
             return [start + i * step for i in range(self.max_loop + 1)]
         if recv is None and meth == "super" and not args and meth not in frame and self._fi_stack and self._fi_stack[-1].cls and self.idx is not None:
             return _Super(self._fi_stack[-1].cls, frame.get("__self__", "self"))
+        if recv is None and meth == "object" and not args and not kwargs and "object" not in frame:
+            # a sentinel: a definite object identical to nothing but itself, named by the place that creates it
+            return Obj(f"object@{getattr(e, 'lineno', 0)}:{getattr(e, 'col_offset', 0)}")
         if recv is None and meth == "type" and len(args) == 1 and not isinstance(args[0], (Residual, Obj)):
             return Residual(type(args[0]).__name__)
         # getattr(x, "name") with a name known here is the attribute x.name (property getters and all)
